@@ -652,7 +652,8 @@ namespace {
                         if (!condTok->hasKnownIntValue() || inLoop) {
                             if (!analyzer->lowerToPossible())
                                 return Break(Analyzer::Terminate::Bail);
-                        } else if (condTok->getKnownIntValue() == inElse) {
+                        } else if ((condTok->getKnownIntValue() != 0) == inElse) {
+                            // the block is not executed: a condition is true if it is not zero
                             return Break();
                         }
                         // Handle loop
